@@ -573,7 +573,8 @@ static void handle(int argc, char** argv)
 {
 	if (argc < 1) { printf("bad-op"); return; }
 	if (handle_belt(argc, argv)) return;
-	if (!strcmp(argv[0], "bashf")) op_bashf(argc, argv);
+	/* bashf32 = the same library call; in cfg bash32 it runs bash_f32.c and is compared with the f32 MODEL */
+	if (!strcmp(argv[0], "bashf") || !strcmp(argv[0], "bashf32")) op_bashf(argc, argv);
 	else if (!strcmp(argv[0], "hash")) op_hash(argc, argv);
 	else if (!strcmp(argv[0], "prg")) op_prg(argc, argv);
 	else if (!strcmp(argv[0], "ctrinc")) op_ctrinc(argc, argv);
